@@ -263,7 +263,9 @@ pub fn run(sc: &Scenario) -> RunResult {
     let is_c07 = sc.prop == "C07";
     let src0 = sc.versions[0].source();
     let path0 = sc.versions[0].path();
-    let mut sut = match Sut::start(sc.backend, &src0, path0.clone(), &opts, sc.retire) {
+    let started = crate::util::guarded(|| Sut::start(sc.backend, &src0, path0.clone(), &opts, sc.retire))
+        .unwrap_or_else(|p| Err(format!("panic: {p}")));
+    let mut sut = match started {
         Ok(s) => s,
         Err(e) => {
             res.outcome = Some(Outcome::Skip(format!("initial program did not start: {e}")));
